@@ -2,7 +2,6 @@ package main
 
 import (
 	"fmt"
-	"go/ast"
 	"go/token"
 	"go/types"
 	"math/bits"
@@ -460,147 +459,159 @@ type castleFacts struct {
 	Pos       token.Pos
 }
 
-// castleMethods finds the generator methods that consult Castle(STM, side).
-func castleMethods(c *Ctx, p *Prog, rule string) []castleFacts {
-	pk := p.Pkg("movegen")
-	if pk == nil {
-		c.Anchor(rule, "package movegen")
-		return nil
+// bbFromSquaresConst evaluates a call BitBoardFromSquares(c1, c2, ...) with constant arguments.
+func bbFromSquaresConst(v ssa.Value) (uint64, bool) {
+	call, ok := stripConv(v).(*ssa.Call)
+	if !ok || objName(calleeObj(call)) != "chess.BitBoardFromSquares" || len(call.Call.Args) != 1 {
+		return 0, false
 	}
-	info := pk.TypesInfo
-	var out []castleFacts
-	for _, f := range pk.Syntax {
-		for _, d := range f.Decls {
-			fd, ok := d.(*ast.FuncDecl)
-			if !ok || fd.Body == nil || fd.Recv == nil {
-				continue
-			}
-			calls := callsInNode(info, fd.Body, "chess.Castle")
-			if len(calls) == 0 {
-				continue
-			}
-			name := "movegen.(generator)." + fd.Name.Name
-			if len(calls) != 1 || len(calls[0].Args) != 2 {
-				c.Undec(rule, name+"#rights", fd.Pos(), "expected one Castle(colour, side) call")
-				continue
-			}
-			side, ok := constInt(info, calls[0].Args[1])
-			if !ok {
-				c.Undec(rule, name+"#rights", fd.Pos(), "side argument of Castle is not constant")
-				continue
-			}
-			cf := castleFacts{Side: side, Mask: map[string]uint64{}, Pos: fd.Pos()}
-			// rights colour is b.STM
-			if sel, ok := ast.Unparen(calls[0].Args[0]).(*ast.SelectorExpr); !ok || sel.Sel.Name != "STM" {
-				c.Fail(rule, name+"#rights", calls[0].Pos(), "castling right tested is not the side to move's")
-			} else {
-				c.Ok(rule, name+"#rights", calls[0].Pos(), "tests Castle(STM, side=%d)", side)
-			}
-			// masks per colour from `case White: castleMask = BitBoardFromSquares(...)`
-			var maskObj types.Object
-			ast.Inspect(fd.Body, func(n ast.Node) bool {
-				cc, ok := n.(*ast.CaseClause)
-				if !ok || len(cc.List) != 1 {
-					return true
-				}
-				colv, ok := constInt(info, cc.List[0])
-				if !ok {
-					return true
-				}
-				col := map[int64]string{0: "White", 1: "Black"}[colv]
-				for _, s := range cc.Body {
-					as, ok := s.(*ast.AssignStmt)
-					if !ok || len(as.Lhs) != 1 || len(as.Rhs) != 1 {
-						continue
-					}
-					call, ok := ast.Unparen(as.Rhs[0]).(*ast.CallExpr)
-					if !ok {
-						continue
-					}
-					if cal := astCallee(info, call); cal == nil || objName(cal) != "chess.BitBoardFromSquares" {
-						continue
-					}
-					var m uint64
-					okAll := true
-					for _, a := range call.Args {
-						v, ok := constInt(info, a)
-						if !ok || v < 0 || v > 63 {
-							okAll = false
-							break
-						}
-						m |= 1 << uint(v)
-					}
-					if okAll && col != "" {
-						cf.Mask[col] = m
-						if id, ok := as.Lhs[0].(*ast.Ident); ok {
-							maskObj = info.ObjectOf(id)
-						}
-					}
-				}
-				return true
-			})
-			if len(cf.Mask) != 2 || maskObj == nil {
-				c.Undec(rule, name+"#mask", fd.Pos(), "castle mask per colour not recognised (found %d)", len(cf.Mask))
-				continue
-			}
-			isMask := func(e ast.Expr) bool {
-				id, ok := ast.Unparen(e).(*ast.Ident)
-				return ok && info.ObjectOf(id) == maskObj
-			}
-			// emptiness test and destination, attack argument
-			ast.Inspect(fd.Body, func(n ast.Node) bool {
-				switch x := n.(type) {
-				case *ast.BinaryExpr:
-					if x.Op == token.EQL {
-						// g.occ & (mask>>1) == 0   |   g.occ & mask == g.self & Pieces[King]
-						l, ok := ast.Unparen(x.X).(*ast.BinaryExpr)
-						if !ok || l.Op != token.AND {
-							return true
-						}
-						for _, side := range []ast.Expr{l.X, l.Y} {
-							side = ast.Unparen(side)
-							if isMask(side) {
-								if r, ok := ast.Unparen(x.Y).(*ast.BinaryExpr); ok && r.Op == token.AND && strings.Contains(types.ExprString(r), "King") {
-									cf.EmptyExpr = "mask-minus-king"
-								}
-							}
-							if sh, ok := side.(*ast.BinaryExpr); ok && sh.Op == token.SHR && isMask(sh.X) {
-								if k, ok := constInt(info, sh.Y); ok && k == 1 {
-									if z, ok := constInt(info, x.Y); ok && z == 0 {
-										cf.EmptyExpr = "mask>>1"
-									}
-								}
-							}
-						}
-					}
-				case *ast.CallExpr:
-					if cal := astCallee(info, x); cal != nil {
-						switch objName(cal) {
-						case "move.To":
-							if be, ok := ast.Unparen(x.Args[0]).(*ast.BinaryExpr); ok {
-								if k, ok := constInt(info, be.Y); ok {
-									if be.Op == token.ADD {
-										cf.Delta = k
-									} else if be.Op == token.SUB {
-										cf.Delta = -k
-									}
-								}
-							}
-						case "board.(*Board).IsAttacked":
-							if len(x.Args) == 3 && isMask(x.Args[2]) {
-								cf.AttackArg = "mask"
-							} else {
-								cf.AttackArg = types.ExprString(x.Args[2])
-							}
-						}
-					}
-				}
-				return true
-			})
-			cf.SideName = name
-			out = append(out, cf)
+	vals := varargValues(call.Call.Args[0])
+	if len(vals) == 0 {
+		return 0, false
+	}
+	var m uint64
+	for _, x := range vals {
+		k, isc := constOf(x)
+		if !isc || k < 0 || k > 63 {
+			return 0, false
 		}
+		m |= 1 << uint(k)
 	}
+	return m, true
+}
+
+// castleMethods finds the generator methods that consult Castle(STM, side) and reads their
+// castling facts from the SSA (robust against guard clauses, merged conditions, if/switch forms).
+func castleMethods(c *Ctx, p *Prog, rule string) []castleFacts {
+	var out []castleFacts
+	for _, fn := range p.OwnFuncs() {
+		if relPkg(fnPkgPath(fn)) != "movegen" || fn.Parent() != nil {
+			continue
+		}
+		calls := callsIn(fn, "chess.Castle")
+		if len(calls) == 0 {
+			continue
+		}
+		name := fnName(fn)
+		if len(calls) != 1 {
+			c.Undec(rule, name+"#rights", fn.Pos(), "expected one Castle(colour, side) call")
+			continue
+		}
+		cc := calls[0].Common()
+		side, ok := constOf(cc.Args[1])
+		if !ok {
+			c.Undec(rule, name+"#rights", fn.Pos(), "side argument of Castle is not constant")
+			continue
+		}
+		cf := castleFacts{Side: side, Mask: map[string]uint64{}, Pos: fn.Pos(), SideName: name}
+		if isFieldLoad(stripConv(cc.Args[0]), "Board.STM") {
+			c.Ok(rule, name+"#rights", calls[0].Pos(), "tests Castle(STM, side=%d)", side)
+		} else {
+			c.Fail(rule, name+"#rights", calls[0].Pos(), "castling right tested is not the side to move's")
+		}
+		// the mask: what IsAttacked is asked about
+		atts := callsIn(fn, "board.(*Board).IsAttacked")
+		if len(atts) != 1 {
+			c.Undec(rule, name+"#mask", fn.Pos(), "expected one IsAttacked call, found %d", len(atts))
+			continue
+		}
+		mask := stripConv(atts[0].Common().Args[3])
+		cf.AttackArg = "mask"
+		ph, isPhi := mask.(*ssa.Phi)
+		if !isPhi {
+			c.Undec(rule, name+"#mask", fn.Pos(), "the squares tested for attack are not a per-colour choice of constant square sets")
+			continue
+		}
+		for i, e := range ph.Edges {
+			if k, isc := constOf(e); isc && k == 0 {
+				continue
+			}
+			m, ok := bbFromSquaresConst(e)
+			if !ok {
+				cf.Mask = map[string]uint64{}
+				break
+			}
+			pred := ph.Block().Preds[i]
+			col := ""
+			for _, ce := range append(controllingConds(pred), edgeCond(pred, ph.Block())...) {
+				bo, ok := ce.Cond.(*ssa.BinOp)
+				if !ok || bo.Op != token.EQL || !ce.True || !isFieldLoad(stripConv(bo.X), "Board.STM") {
+					continue
+				}
+				if k, isc := constOf(bo.Y); isc {
+					col = map[int64]string{0: "White", 1: "Black"}[k]
+				}
+			}
+			if col != "" {
+				cf.Mask[col] = m
+			}
+		}
+		if len(cf.Mask) != 2 {
+			c.Undec(rule, name+"#mask", fn.Pos(), "castle mask per colour not recognised (found %d)", len(cf.Mask))
+			continue
+		}
+		// emptiness test: occ & mask  (==/!=)  own king   |   occ & (mask>>1)  (==/!=)  0
+		allInstrs(fn, func(in ssa.Instruction) {
+			cmp, ok := in.(*ssa.BinOp)
+			if !ok || (cmp.Op != token.EQL && cmp.Op != token.NEQ) {
+				return
+			}
+			for _, pr := range [][2]ssa.Value{{cmp.X, cmp.Y}, {cmp.Y, cmp.X}} {
+				and, ok := stripConv(pr[0]).(*ssa.BinOp)
+				if !ok || and.Op != token.AND {
+					continue
+				}
+				for _, q := range [][2]ssa.Value{{and.X, and.Y}, {and.Y, and.X}} {
+					if !isGenField(q[0], "occ") {
+						continue
+					}
+					other := stripConv(q[1])
+					if other == mask {
+						// compared with the own king set
+						var ls []struct {
+							V   ssa.Value
+							Neg bool
+						}
+						andLeaves(pr[1], false, &ls)
+						self, king := false, false
+						for _, lf := range ls {
+							if isGenField(lf.V, "self") && !lf.Neg {
+								self = true
+							}
+							if k, ok := piecesLoadKind(lf.V, pieceConsts(p)); ok && k == "King" && !lf.Neg {
+								king = true
+							}
+						}
+						if self && king && len(ls) == 2 {
+							cf.EmptyExpr = "mask-minus-king"
+						}
+					}
+					if sh, ok := other.(*ssa.BinOp); ok && sh.Op == token.SHR && stripConv(sh.X) == mask {
+						if k, isc := constOf(sh.Y); isc && k == 1 {
+							if z, isc := constOf(pr[1]); isc && z == 0 {
+								cf.EmptyExpr = "mask>>1"
+							}
+						}
+					}
+				}
+			}
+		})
+		// destination: move.To(from ± k)
+		for _, tc := range callsIn(fn, "move.To") {
+			if bo, ok := stripConv(tc.Common().Args[0]).(*ssa.BinOp); ok {
+				if k, isc := constOf(bo.Y); isc {
+					switch bo.Op {
+					case token.ADD:
+						cf.Delta = k
+					case token.SUB:
+						cf.Delta = -k
+					}
+				}
+			}
+		}
+		out = append(out, cf)
+	}
+	sort.Slice(out, func(i, j int) bool { return out[i].SideName < out[j].SideName })
 	return out
 }
 
